@@ -267,11 +267,6 @@ def check_order_of_phases(repo, rep):
     rep.floor(rid, 4)
 
 
-def check_chunk_boundaries(repo, rep):
-    from props.c12 import check_chunk_step
-    check_chunk_step(repo, rep, rid="C01-R6", need="divides-trading")
-
-
 def run(repo: Repo, rep, tier: str):
     rep.assume("count, candles_step, num >= 1; loop variables start at 0; the `E % count == 0` guard implies E >= count for the window slice")
     rep.guarded(check_bounds, repo, rep)
@@ -279,7 +274,6 @@ def run(repo: Repo, rep, tier: str):
     rep.guarded(check_forming, repo, rep)
     rep.guarded(check_store_writers, repo, rep)
     rep.guarded(check_order_of_phases, repo, rep)
-    rep.guarded(check_chunk_boundaries, repo, rep)
     rep.undecided_item("that everything a strategy observes is a function of the stored prefix (a two-run hyperproperty); the rules decide that the simulators never read or publish input beyond the current step")
     rep.undecided_item("user strategy code and indicator look-ahead (indicators: see C13)")
 
@@ -292,7 +286,7 @@ CLAIM = {
             "offset such as i-1 must sit under a guard implying i >= 1 (otherwise it wraps to the end of the series = future candles); "
             "window slices must be [E-count : E] under E % count == 0. The whole input never escapes into a call or a store inside the "
             "loop; what is written to the candle store derives only from those bounded reads; forming candles are generated from stored "
-            "1m candles only; matching and candle generation precede strategy execution in every step; _calculate_minimum_candle_step, interpreted for 15 route sets, divides every trading timeframe (no fast-simulator chunk straddles a trading-candle boundary). Not decided: the two-run "
+            "1m candles only; matching and candle generation precede strategy execution in every step. Not decided: the two-run "
             "hyperproperty itself.",
     "note": "Trusted: affine reasoning with the stated positivity assumptions; guards recognised: i != 0, i > 0, i >= k, E % count == 0.",
 }
